@@ -14,6 +14,7 @@ import Csvq.Lemmas.UnaryPrint
 import Csvq.Lemmas.OpExpr
 import Csvq.Lemmas.AstPrint
 import Csvq.Ref.AstPrint
+import Csvq.Lemmas.Clause
 namespace Csvq.C18
 open Csvq.Esc Csvq.Scan Csvq.UPrint
 
@@ -371,6 +372,89 @@ theorem gen_operator_printers_match_model :
   · intro e; rfl
   · intro e; rfl
 
+/-! ## GRAMMAR LAYER, the clause skeleton of SELECT (Csvq/Model/Clause.lean)
+
+  SELECT [DISTINCT] items (expression [AS alias] | * | t.*) [FROM table [, table]] with table = name [[AS] alias] followed by
+  joins ([INNER] | LEFT / RIGHT / FULL [OUTER] | CROSS | NATURAL …, ON expr | USING (cols)) [WHERE expr] [GROUP BY exprs]
+  [HAVING expr] [ORDER BY expr [ASC|DESC] [NULLS FIRST|LAST], …] [LIMIT n [PERCENT|ROW|ROWS] [ONLY | WITH TIES]] [OFFSET n [ROW|ROWS]],
+  expressions being the `OpExpr` trees.  For EVERY table of precedences, every well-formed query of any size.
+  Not in the model yet (by correspondence only): INTO, WITH, FOR UPDATE, FETCH, LATERAL, sub-selects and parenthesised
+  tables in FROM, table functions, set operators, function calls / CASE / BETWEEN / IN / sub-select expressions. -/
+
+open Csvq.OpExpr Csvq.Clause in
+/-- `parseSelect (printSelect s ++ rest) = some (s, rest)` for every well-formed query `s` and every rest that cannot
+    continue it (nothing, a closing parenthesis, or a set operator) -/
+theorem select_print_parse {α : Type} [DecidableEq α] (tbl : Table α) (s : Select α) (hw : WFSelect tbl s)
+    (rest : List (Tok α)) (hr : After 8 rest) : parseSelect tbl (printSelect tbl s ++ rest) = some (s, rest) :=
+  parseSelect_print tbl s hw rest hr
+
+open Csvq.OpExpr Csvq.Clause in
+/-- `parseSelect` is a total function (recursive descent, structural / fuelled by the number of tokens), and whenever it
+    succeeds it has consumed tokens: the rest is strictly shorter than the input -/
+theorem parse_total {α : Type} [DecidableEq α] (tbl : Table α) (ts : List (Tok α)) (s : Select α) (r : List (Tok α))
+    (h : parseSelect tbl ts = some (s, r)) : r.length < ts.length := by
+  have := parseSelect_len tbl h; omega
+
+open Csvq.OpExpr Csvq.Clause in
+/-- print ∘ parse ∘ print = print -/
+theorem select_print_idempotent {α : Type} [DecidableEq α] (tbl : Table α) (s : Select α) (hw : WFSelect tbl s) :
+    (parseSelect tbl (printSelect tbl s)).map (fun x => printSelect tbl x.1) = some (printSelect tbl s) := by
+  have := parseSelect_print tbl s hw [] (by simp [After])
+  simp only [List.append_nil] at this
+  simp [this]
+
+open Csvq.AstPrint Csvq.Gen.AstPrint Csvq.OpExpr Csvq.Clause in
+/-- `printSelect` writes its parts in the order, under the conditions and with the keywords of the String() methods
+    as regenerated from ast.go: left, the appended parts of each clause node (condition, value); right, the model's
+    equation for the same clause. -/
+theorem gen_clause_printers_match_model :
+    emitted node_SelectClause = [("", "keyword(SELECT)"), ("e.IsDistinct()", "e.Distinct.String()"), ("", "listQueryExpressions(e.Fields)")] ∧
+    emitted node_Field = [("", "e.Object.String()"), ("!e.As.IsEmpty()", "e.As.String()"), ("e.Alias != nil", "e.Alias.String()")] ∧
+    emitted node_SelectEntity = [("", "e.SelectClause.String()"), ("e.IntoClause != nil", "e.IntoClause.String()"),
+      ("e.FromClause != nil", "e.FromClause.String()"), ("e.WhereClause != nil", "e.WhereClause.String()"),
+      ("e.GroupByClause != nil", "e.GroupByClause.String()"), ("e.HavingClause != nil", "e.HavingClause.String()")] ∧
+    emitted node_SelectQuery = [("e.WithClause != nil", "e.WithClause.String()"), ("", "e.SelectEntity.String()"),
+      ("e.OrderByClause != nil", "e.OrderByClause.String()"), ("e.LimitClause != nil", "e.LimitClause.String()"),
+      ("e.IsForUpdate()", "keyword(FOR)"), ("e.IsForUpdate()", "e.Context.String()")] ∧
+    emitted node_FromClause = [("", "keyword(FROM)"), ("", "listQueryExpressions(e.Tables)")] ∧
+    emitted node_WhereClause = [("", "keyword(WHERE)"), ("", "e.Filter.String()")] ∧
+    emitted node_GroupByClause = [("", "keyword(GROUP)"), ("", "keyword(BY)"), ("", "listQueryExpressions(e.Items)")] ∧
+    emitted node_HavingClause = [("", "keyword(HAVING)"), ("", "e.Filter.String()")] ∧
+    emitted node_OrderByClause = [("", "keyword(ORDER)"), ("", "keyword(BY)"), ("", "listQueryExpressions(e.Items)")] ∧
+    emitted node_OrderItem = [("", "e.Value.String()"), ("!e.Direction.IsEmpty()", "e.Direction.String()"),
+      ("!e.NullsPosition.IsEmpty()", "keyword(NULLS)"), ("!e.NullsPosition.IsEmpty()", "e.NullsPosition.String()")] ∧
+    (emitted node_LimitClause).take 5 = [("e.Type.Token == LIMIT", "e.Type.String()"), ("e.Type.Token == LIMIT", "e.Value.String()"),
+      ("e.Type.Token == LIMIT && !e.Unit.IsEmpty()", "e.Unit.String()"),
+      ("e.Type.Token == LIMIT && !e.Restriction.IsEmpty()", "e.restrictionString()"),
+      ("e.Type.Token == LIMIT && e.OffsetClause != nil", "e.OffsetClause.String()")] ∧
+    (emitted node_LimitClause).getLast? = some ("!(e.Type.Token == LIMIT) && !(e.Type.Token == FETCH) && e.OffsetClause != nil", "e.OffsetClause.String()") ∧
+    emitted node_OffsetClause = [("", "keyword(OFFSET)"), ("", "e.Value.String()"), ("!e.Unit.IsEmpty()", "e.Unit.String()")] ∧
+    emitted node_Table = [("!e.Lateral.IsEmpty()", "e.Lateral.String()"), ("", "e.Object.String()"), ("!e.As.IsEmpty()", "e.As.String()"),
+      ("e.Alias != nil", "e.Alias.String()")] ∧
+    emitted node_Join = [("", "e.Table.String()"), ("!e.Natural.IsEmpty()", "e.Natural.String()"), ("!e.Direction.IsEmpty()", "e.Direction.String()"),
+      ("!e.JoinType.IsEmpty()", "e.JoinType.String()"), ("", "keyword(JOIN)"), ("", "e.JoinTable.String()"),
+      ("e.Condition != nil", "e.Condition.String()")] ∧
+    emitted node_JoinCondition = [("e.On != nil", "keyword(ON)"), ("e.On != nil", "e.On.String()"), ("!(e.On != nil)", "keyword(USING)"),
+      ("!(e.On != nil)", "putParentheses(listQueryExpressions(e.Using))")] ∧
+    -- the model's printers, clause by clause
+    (∀ (tbl : Table Csvq.Gen.Precedence.Term) (s : Select Csvq.Gen.Precedence.Term), printSelect tbl s =
+      .kw .select :: ((if s.distinct then [.kw .distinct] else []) ++ (printSep (printItem tbl) s.items ++
+      (printListClause [.kw .from] (printTableRef tbl) s.tables ++ (printOptClause [.kw .where] tbl s.where_ ++
+      (printListClause [.kw .group, .kw .by] (print tbl) s.groupBy ++ (printOptClause [.kw .having] tbl s.having ++
+      (printListClause [.kw .order, .kw .by] (printOrderItem tbl) s.orderBy ++ (printOptLimit s.limit ++ printOptOffset s.offset))))))))) ∧
+    (∀ (tbl : Table Csvq.Gen.Precedence.Term) e x, printItem tbl (.expr e (some x)) = print tbl e ++ [.kw .as, .atom x]) ∧
+    (∀ (tbl : Table Csvq.Gen.Precedence.Term) o, printOrderItem tbl o = print tbl o.e ++ (printDir o.dir ++ printNulls o.nulls)) ∧
+    (printNulls (α := Csvq.Gen.Precedence.Term) .last = [.kw .nulls, .kw .last]) ∧
+    (∀ l : Limit, printLimit (α := Csvq.Gen.Precedence.Term) l = .kw .limit :: .atom l.value :: (printLimUnit l.unit ++ printLimRestr l.restr)) ∧
+    (printLimRestr (α := Csvq.Gen.Precedence.Term) .ties = [.kw .with, .kw .ties]) ∧
+    (∀ o : Offset, printOffset (α := Csvq.Gen.Precedence.Term) o = .kw .offset :: .atom o.value :: printOffUnit o.unit) ∧
+    (∀ a : TableAtom, printTableAtom (α := Csvq.Gen.Precedence.Term) a = .atom a.name :: ((if a.as then [.kw .as] else []) ++ printOptAtom a.alias)) ∧
+    (∀ (tbl : Table Csvq.Gen.Precedence.Term) j, printJoinStep tbl j = (if j.natural then [.kw .natural] else []) ++ (printJDir j.dir ++
+      (printJTyp j.typ ++ (.kw .join :: (printTableAtom j.table ++ printJoinCond tbl j.cond))))) ∧
+    (∀ (tbl : Table Csvq.Gen.Precedence.Term) cs, printJoinCond tbl (.cols cs) = .kw .using :: .lpar :: (printSep (fun c => [Tok.atom c]) cs ++ [.rpar])) := by
+  refine ⟨by decide, by decide, by decide, by decide, by decide, by decide, by decide, by decide, by decide, by decide,
+    by decide, by decide, by decide, by decide, by decide, by decide, ?_, ?_, ?_, rfl, ?_, rfl, ?_, ?_, ?_, ?_⟩ <;> intros <;> rfl
+
 /-! ## non-vacuity -/
 
 example : escapeString ['a', '\'', '\n', '\\', '"'] = ['a', '\\', '\'', '\\', 'n', '\\', '\\', '"'] := by decide
@@ -403,5 +487,16 @@ example : parse genTable [.sym .c_minus 0, .atom 0, .sym .c_star 0, .lpar, .atom
 open Csvq.OpExpr Csvq.Gen.Precedence in
 example : parse genTable [.atom 0, .sym .c_eq 0, .atom 1, .sym .c_eq 0, .atom 2] = none ∧
     parse genTable [.atom 0, .sym .IS 0, .lit 0, .sym .c_eq 0, .atom 1] = some (.bin (.post (.atom 0) .IS false 0) .c_eq 0 (.atom 1)) := by decide
+
+-- the clause skeleton: a query that uses every clause, parsed from its tokens with the regenerated table; printing it gives the tokens back
+open Csvq.OpExpr Csvq.Clause Csvq.Gen.Precedence in
+example : (parseSelect genTable [.kw .select, .kw .distinct, .atom 0, .kw .as, .atom 2, .kw .comma, .sym .c_star 0, .kw .from, .atom 4, .atom 6,
+      .kw .left, .kw .join, .atom 8, .kw .on, .atom 0, .sym .c_eq 0, .atom 2, .kw .where, .sym .NOT 0, .atom 0, .kw .order, .kw .by, .atom 0,
+      .kw .desc, .kw .nulls, .kw .last, .kw .limit, .atom 3, .kw .with, .kw .ties, .kw .offset, .atom 1, .kw .rows]).map (fun x => (x.1.orderBy.length, x.1.limit, x.2)) =
+    some (1, some ⟨3, .none, .ties⟩, []) := by decide
+-- a third table in FROM is not part of the grammar (csvq rejects `select 1 from t, u, v`)
+open Csvq.OpExpr Csvq.Clause Csvq.Gen.Precedence in
+example : (parseSelect genTable [.kw .select, .atom 1, .kw .from, .atom 0, .kw .comma, .atom 2, .kw .comma, .atom 4]).map (·.2) =
+    some [.kw .comma, .atom 4] := by decide
 
 end Csvq.C18
